@@ -149,3 +149,6 @@ Definition c11_ex_lru_ops : list (c11_lru_op nat) :=
 Definition c11_ex_rv_ops : list (c11_rv_op nat) :=
   [RvPush _ false 1; RvPush _ false 2; RvResize _ false 3; RvPop _ false; RvAt _ false 1; RvAt _ false 5; RvMake _ true 2 7; RvSwap _;
    RvFrom _ true [4; 5; 6]; RvFill _ false 9; RvSet _ true 0 8; RvAssign _ false; RvClear _ true].
+Definition c11_ex_bv_ops : list c11_bv_op :=
+  [BvResize 2 false; BvSet 0 1 true; BvFlipBlock 1; BvShl 0 1; BvShr 1 2; BvOpBlock BvOr 0 1; BvAssignBits 1 [true]; BvResize 3 true;
+   BvAssignBlock 2 0; BvOpBits BvXor 1 [true; true; false]; BvSetAll; BvResize 1 false; BvClear].
